@@ -11,6 +11,7 @@
 import Proofs.Monad
 import Props.C03
 import Proofs.GraphHist
+import Proofs.ConvertMode
 
 namespace Measured.C07
 open Measured
@@ -103,5 +104,30 @@ theorem path_search_never_raises {σ : UId → Rat} (hσ : ∀ k, σ k ≠ 0) {c
     (hd : c.st.dimOfUnit start = c.st.dimOfUnit stop) :
     ∃ p c', CM.exec (findPath start stop) c = (.ok p, c') :=
   reach_findPath_total hσ hr hs ht hd
+
+/-- **`-O` changes nothing (path search)**: in every reachable state, the search between two units of
+    one dimension returns the same path and interns the same units with assertions on and off
+    (`withAsserts x` sets the interpreter mode). -/
+theorem path_search_mode_independent {σ : UId → Rat} (hσ : ∀ k, σ k ≠ 0) {c c' : Conv Rat} (hr : Reach σ c)
+    {start stop : UId} {p : List (Hop Rat)} (hs : start < c.st.units.length) (ht : stop < c.st.units.length)
+    (hd : c.st.dimOfUnit start = c.st.dimOfUnit stop)
+    (hx : CM.exec (findPath start stop) c = (.ok p, c')) (x : Bool) :
+    CM.exec (findPath start stop) (withAsserts x c) = (.ok p, withAsserts x c') := by
+  obtain ⟨hg, _, hw⟩ := reach_graphOK hσ hr
+  exact findPath_mode hg hw hs ht hd hx x
+
+/-- **`-O` changes nothing (directly settled conversions)**: a conversion that succeeds through the
+    directly found path succeeds in the other interpreter mode too, with the same magnitude, the same
+    unit and the same interning. -/
+theorem direct_conversion_mode_independent {σ : UId → Rat} (hσ : ∀ k, σ k ≠ 0) {c c' c2 : Conv Rat} (hr : Reach σ c)
+    {q r : Qty Rat} {t : UId} {p : List (Hop Rat)}
+    (hq : q.unit < c.st.units.length) (ht : t < c.st.units.length)
+    (hx : CM.exec (convert q t) c = (.ok r, c'))
+    (hfp : CM.exec (findPath q.unit t)
+      { c with st := ((c.st.unprefixedUnit q.unit).1.unprefixedUnit t).1 } = (.ok p, c2))
+    (hne : p ≠ []) (x : Bool) :
+    CM.exec (convert q t) (withAsserts x c) = (.ok r, withAsserts x c') := by
+  obtain ⟨hg, _, hw⟩ := reach_graphOK hσ hr
+  exact convert_direct_mode hg hw hq ht hx hfp hne x
 
 end Measured.C07
